@@ -17,5 +17,6 @@ Used == UNION {{id[1], id[2], id[3]} : id \in Good} \ {0}
 ASSUME JsonSerialize(IOEnv.QUANT_OUT,
                      [rows  |-> SetToSeq({Row(id) : id \in Good}),
                       items |-> SetToSeq({[i |-> i, it |-> ItemOf(i)] : i \in Used}),
-                      asked |-> Cardinality(AllIds)])
+                      asked |-> Cardinality(AllIds),
+                      nflat |-> NFlat, nitems |-> NItems, nwords |-> NWords])
 =============================================================================
